@@ -52,6 +52,20 @@ func (m *Machine) dispatchSpecial(th *Thread, fn *ssa.Function, args []Value, si
 	if in, ok := intrinsics[key]; ok {
 		return in(m, th, fn, args, site), true
 	}
+	if len(m.P.Suite.NoopTypes) > 0 && fn.Signature.Recv() != nil {
+		rt := fn.Signature.Recv().Type()
+		if pt, ok := rt.Underlying().(*types.Pointer); ok {
+			rt = pt.Elem()
+		}
+		if nt, ok := rt.(*types.Named); ok && nt.Obj().Pkg() != nil {
+			full := nt.Obj().Pkg().Path() + "." + nt.Obj().Name()
+			for _, n := range m.P.Suite.NoopTypes {
+				if n == full {
+					return m.noopResult(fn, args), true
+				}
+			}
+		}
+	}
 	if fn.Pkg != nil {
 		pp := fn.Pkg.Pkg.Path()
 		for _, p := range m.P.Cfg.NoopPkgs {
@@ -63,6 +77,30 @@ func (m *Machine) dispatchSpecial(th *Thread, fn *ssa.Function, args []Value, si
 		// methods of instantiated generics etc. have Pkg == nil; use the receiver's package
 	}
 	return nil, false
+}
+
+// noopResult: zero results, except that a result of an interface type which
+// the receiver's type implements is the receiver itself (NewChild-style methods).
+func (m *Machine) noopResult(fn *ssa.Function, args []Value) Value {
+	res := fn.Signature.Results()
+	recvT := fn.Signature.Recv().Type()
+	one := func(t types.Type) Value {
+		if it, ok := t.Underlying().(*types.Interface); ok && it.NumMethods() > 0 && m.implementsPtr(recvT, it) {
+			return &IfaceV{T: recvT, V: args[0]}
+		}
+		return m.zero(t)
+	}
+	switch res.Len() {
+	case 0:
+		return nil
+	case 1:
+		return one(res.At(0).Type())
+	}
+	tv := make(TupleV, res.Len())
+	for i := range tv {
+		tv[i] = one(res.At(i).Type())
+	}
+	return tv
 }
 
 func (m *Machine) strArg(v Value) string {
